@@ -121,6 +121,22 @@ def run(ck: vlib.Check):
             k = end - tgt
             cases.insert(0, (b0 + b"JUNK" + (2 ** 32 - k).to_bytes(4, "little"), "back-pointing-size"))
         cases.insert(0, (b0 + b"JUNK" + (2 ** 32 - 1).to_bytes(4, "little"), "back-pointing-size"))
+    # string sections larger than their offset width can address (STR: strings that START beyond byte 65535; ids whose
+    # 16-bit offsets all lie below): the decoder takes them, so the encoder must write them back
+    import struct
+    for total, ln in ((66000, 1000), (70000, 7), (65536 + 40, 65530), (131072, 500)):
+        strs, size = [], 0
+        while size < total:
+            strs.append(bytes(65 + (len(strs) + i) % 26 for i in range(ln)))
+            size += ln + 1
+        for nids in (0, 3):
+            hdr = 2 + 2 * nids
+            offs, pos = [], hdr
+            for s_ in strs[:nids]:
+                offs.append(pos if pos < 65536 else hdr)
+                pos += len(s_) + 1
+            payload = struct.pack("H", nids) + b"".join(struct.pack("H", o) for o in offs) + b"".join(s_ + b"\0" for s_ in strs)
+            cases.insert(0, (S.frame(b"VER ", b"\xcd\x00") + S.frame(b"STR ", payload) + S.frame(b"TAIL", b"x"), "str-over-64k"))
     for _ in range(n):
         cases.append(S.gen_malformed_chk(rng, small_fx[:1] if rng.random() < 0.02 else []))
     for _ in range(n // 10):
